@@ -329,19 +329,118 @@ def run(ctx, env):
             # repetition: nom's many0 / many1 fail when an element parser succeeds without consuming, so a
             # zero-length field fails the flowset instead of being materialised
             dec = DECODER_OF.get((w["adt"].rsplit("::", 1)[1], w["field"]))
-            if dec is not None and any(r["field"] == w["field"] and r["adt"] == w["adt"] and r["body"].path.startswith(dec) for r in ca.reads):
-                from .layout import Layouts, term_s
-                if not hasattr(an, "_lay15"):
-                    an._lay15 = Layouts(prog, an)
-                L = an._lay15.parser_layout(dec + "::parse_be")
-                steps = [st for st in (L["steps"] if L["ok"] else []) if st["term"][0] != "vec"]
-                if steps and all(st["term"][0] in ("many0", "many1") for st in steps):
+            if dec is not None:
+                pc, pwhy = progress_checked_decoder(prog, an, dec)
+                if pc:
                     ok = True
-                    why = "zero-length fields are admitted to the cache, but %s decodes every field list under nom's progress-checked %s: a field that consumes nothing fails the flowset" % (
-                        dec.rsplit("::", 2)[-2] + "::" + dec.rsplit("::", 1)[1], sorted(set(st["term"][0] for st in steps)))
-                elif steps:
-                    why += "; %s decodes its fields by %s, which has no per-field progress requirement" % (dec.rsplit("::", 1)[1], sorted(set(st["term"][0] for st in steps)))
+                    why = "zero-length fields are admitted to the cache, but %s" % pwhy
+                else:
+                    why += "; " + pwhy
         ctx.ob("R15.4", w["adt"], "zero-length-fields-rejected:%s" % w["field"], ok, why + " (write at %s)" % b.path, site=b.line(w["block"]))
+
+
+ONE_FIELD = re.compile(r"^&('\w+ )?(mut )?[\w:]*(TemplateField|OptionsTemplateScopeField|OptionTemplateField)$")
+FIELD_ARG = re.compile(r"\b(TemplateField|OptionsTemplateScopeField|OptionTemplateField)\b")
+
+
+def progress_checked_decoder(prog, an, dec):
+    """Every per-field decode of this decoder - a call of a crate parser that is handed one template field - runs under
+    a repetition that refuses an element which consumes nothing: a closure given (directly or through nested
+    closures / private helpers) to nom `many0` / `many1`, or a loop with an explicit nothing-consumed test."""
+    from .c13 import reachable_local_bodies
+    from . import loopexit
+    from ..suffix import is_parser_ret
+    root = dec + "::parse_be"
+    if prog.body(root) is None:
+        return False, "decoder %s not found" % root
+    # every function of the decoder type and what they call inside the decoder's module (MIR-level call edges, so
+    # that a derived entry point that is no longer on the parse path does not hide the functions that are)
+    mod = dec.rsplit("::", 1)[0] + "::"
+    rb = {}
+    st = [p for p in prog.bodies if p.startswith(dec + "::") and "parse_le" not in p]
+    while st:
+        p0 = st.pop()
+        if p0 in rb or p0 not in prog.bodies or "parse_le" in p0:
+            continue
+        rb[p0] = prog.bodies[p0]
+        for _, _, c0 in prog.bodies[p0].calls():
+            if c0 is not None and c0.local and c0.path.startswith(mod) and c0.path not in rb:
+                st.append(c0.path)
+        st.extend(p1 for p1 in prog.bodies if p1.startswith(p0 + "::{closure") and p1 not in rb)
+    # closure types handed to many0 / many1 anywhere below the decoder
+    under = set()
+    for bb in rb.values():
+        for blk, t, c in bb.calls():
+            if c is not None and c.npath in ("nom::multi::many0", "nom::multi::many1"):
+                txt = " ".join(str(x) for x in (t.get("argtys") or [])) + " " + " ".join(str(x) for x in (c.args or []))
+                for tok in re.findall(r"\{closure@[^{}]*\}", txt):
+                    for p2, b2 in rb.items():
+                        if b2.kind == "Closure" and b2.span and "{closure@%s}" % b2.span["s"] == tok:
+                            under.add(p2)
+    # ... and whatever those closures call / contain
+    changed = True
+    while changed:
+        changed = False
+        for p2, b2 in rb.items():
+            if p2 in under:
+                continue
+            par = re.sub(r"::\{closure#\d+\}$", "", p2)
+            if par != p2 and par in under:
+                under.add(p2)
+                changed = True
+        for p2 in list(under):
+            for blk, t, c in rb[p2].calls():
+                if c is not None and c.local and c.path in rb and c.path not in under and not rb[c.path].j.get("pub"):
+                    under.add(c.path)
+                    changed = True
+    sites = []
+    for p2, b2 in sorted(rb.items()):
+        for blk, t, c in b2.calls():
+            if c is None or not (c.local or c.nsyn in ("std::ops::Fn::call", "std::ops::FnMut::call_mut", "std::ops::FnOnce::call_once")) \
+                    or not is_parser_ret(b2.local_ty(t["dest"]["l"])):
+                continue
+            tys = [y.strip() for x in (t.get("argtys") or []) for y in (str(x)[1:-1].split(", ") if str(x).startswith("(") else [str(x)])]
+            one_field = any(ONE_FIELD.match(y) for y in tys)
+            if not one_field:
+                # a generic helper (`fn in_order<T>(.., fields: &[T], f: impl Fn(&[u8], &T) -> ..)`): the element of
+                # an iteration handed to a parser
+                for a in t["args"]:
+                    e = peel(an.op(b2, a))
+                    ms = e[1] if e[0] == "tuple" else [e]
+                    for m in ms:
+                        m = peel(m)
+                        while m[0] in ("ref", "deref"):
+                            m = peel(m[1])
+                        if m[0] == "some" and peel(m[1])[0] == "call" and peel(m[1])[2] is not None and peel(m[1])[2].nsyn == "std::iter::Iterator::next" \
+                                and any(re.match(r"^&('\w+ )?[A-Z]\w*$", y) for y in tys):
+                            one_field = True
+            if not one_field:
+                continue
+            if re.search(r"::parse(_be|_le)?$", c.path) and c.path.startswith(p2.split("::parse")[0] + "::parse"):
+                continue        # parse -> parse_be delegation
+            sites.append((p2, b2, blk, c))
+    if not sites:
+        return False, "no per-field decode site found below %s (unrecognised shape)" % dec.rsplit("::", 1)[1]
+    bad = []
+    for p2, b2, blk, c in sites:
+        if p2 in under:
+            continue
+        ok2 = False
+        inner = [set(cm) for cm in b2.sccs() if blk in cm]
+        for comp in ([min(inner, key=len)] if inner else []):     # the innermost loop: the per-field repetition
+            for u in comp:
+                t2 = b2.term(u)
+                if t2["k"] != "switch":
+                    continue
+                e, neg = strip_not(an.op(b2, t2["op"]))
+                k = loopexit.kind_of_bool_expr(peel(e), True)
+                if k in ("zero-progress", "progress", "len-vs-len"):
+                    ok2 = True
+        if not ok2:
+            bad.append("%s at %s" % (c.path.rsplit("::", 2)[-2] + "::" + c.path.rsplit("::", 1)[1], b2.line(blk)))
+    if bad:
+        return False, "%s decodes template fields (%s) outside any progress-checked repetition: a field of length zero is materialised without consuming input" % (dec.rsplit("::", 1)[1], bad[:2])
+    return True, "%s decodes every template field under a progress-checked repetition (nom many0 / many1, or a loop that tests for nothing consumed): a field that consumes nothing fails the flowset (%d decode site(s))" % (dec.rsplit("::", 1)[1], len(sites))
 
 
 DECODER_OF = {("V9Parser", "templates"): "variable_versions::v9::Data", ("V9Parser", "options_templates"): "variable_versions::v9::OptionsData",
